@@ -200,7 +200,7 @@ Section Loops.
       let props := stoch_props s StochVol x1 p1 V (vs_time st) in
       let Lambda := array_sum A props in
       let '(proposed, fired, rs, toq, pos1) :=
-        if feqb A Lambda (f0 A) then (tnext, false, true, true, vs_pos st)
+        if feqb A Lambda (f0 A) then (fadd A (vs_next_q st) (sm_dt s), false, true, true, vs_pos st)   (* nothing can fire before the next volume step *)
         else let '(tau, pos') := exponential_rv A Lambda u (vs_pos st) in (fadd A (vs_time st) tau, true, false, false, pos') in
       let '(time', nq, toq, fired, rs) :=
         if fltb A (vs_next_q st) proposed then (vs_next_q st, fadd A (vs_next_q st) (sm_dt s), true, false, true)
